@@ -60,6 +60,9 @@ type FuncContract struct {
 	Pure       bool
 	Inline     bool
 	NoPanic    bool
+	When         *Clause           // case condition of a contract with alternatives (funcalt)
+	Alts         []*FuncContract   // alternative cases of the same function (each with its own When)
+	CaseName     string
 	InlineCalls  []string          // callee keys evaluated in place when this function is verified
 	Shared       []string          // func: all keys sharing this contract
 	Abstract     string            // iface: implementations are not verified (assumed), with reason
@@ -447,6 +450,23 @@ func (cs *ContractSet) parseFile(file, pkgPath string) error {
 		switch word {
 		case "package":
 			continue
+		case "funcalt":
+			// an alternative case of functions that already have a contract: funcalt <case-name> <keys...>
+			reset()
+			f := strings.Fields(rest)
+			if len(f) < 2 {
+				return fmt.Errorf("%s:%d: funcalt <case> <keys>", l.file, l.line)
+			}
+			alt := &FuncContract{Kind: "func", PkgPath: pkgPath, File: l.file, Line: l.line, CaseName: f[0], Key: f[1], Shared: f[1:]}
+			for _, k := range f[1:] {
+				prim, ok := cs.Funcs[pkgPath+" "+k]
+				if !ok {
+					return fmt.Errorf("%s:%d: funcalt for %s without a primary contract", l.file, l.line, k)
+				}
+				prim.Alts = append(prim.Alts, alt)
+			}
+			cur = alt
+			cs.order = append(cs.order, alt)
 		case "func", "iface", "extern", "fnfield":
 			reset()
 			fc := &FuncContract{Kind: word, PkgPath: pkgPath, File: l.file, Line: l.line}
@@ -564,12 +584,14 @@ func (cs *ContractSet) parseFile(file, pkgPath string) error {
 				switch word {
 				case "tags":
 					cur.Tags = append(cur.Tags, strings.Fields(strings.ReplaceAll(rest, ",", " "))...)
-				case "requires", "ensures", "ensures-on-panic", "let", "modifies", "cover", "assumes":
+				case "requires", "ensures", "ensures-on-panic", "let", "modifies", "cover", "assumes", "when":
 					c, err := mk(word, rest, l)
 					if err != nil {
 						return err
 					}
 					switch word {
+					case "when":
+						cur.When = c
 					case "assumes":
 						cur.Assumes = append(cur.Assumes, c)
 						cs.Scan["assumes"]++
